@@ -29,6 +29,9 @@ impl From<BufferDirection> for Dir {
 pub struct DmaEntry {
     pub paddr: u64,
     pub vaddr: usize,
+    /// Address through which the lab (device side) accesses the memory: equal to `vaddr` unless
+    /// the region is double-mapped for the store tracer.
+    pub dev_vaddr: usize,
     pub pages: usize,
     pub dir: Dir,
     pub ap: bool,
@@ -123,7 +126,11 @@ pub fn reset() {
         for e in h.dma.iter() {
             if e.live {
                 // Leaked by the previous execution (reported there if relevant); reclaim now.
-                free_pages(e.vaddr, e.pages);
+                if e.dev_vaddr != e.vaddr {
+                    crate::tracer::free_double_mapped(e.vaddr, e.dev_vaddr, e.pages);
+                } else {
+                    free_pages(e.vaddr, e.pages);
+                }
             }
         }
         *h = HalState::default();
@@ -177,7 +184,7 @@ impl HalState {
                 let o = (paddr - e.paddr) as usize;
                 let mut v = vec![0u8; len];
                 // SAFETY: inside a live allocation made by alloc_pages.
-                unsafe { std::ptr::copy_nonoverlapping((e.vaddr + o) as *const u8, v.as_mut_ptr(), len) };
+                unsafe { std::ptr::copy_nonoverlapping((e.dev_vaddr + o) as *const u8, v.as_mut_ptr(), len) };
                 return Ok(v);
             }
         }
@@ -191,7 +198,7 @@ impl HalState {
                 let o = (paddr - e.paddr) as usize;
                 let mut v = vec![0u8; len];
                 // SAFETY: inside a live allocation made by alloc_pages.
-                unsafe { std::ptr::copy_nonoverlapping((e.vaddr + o) as *const u8, v.as_mut_ptr(), len) };
+                unsafe { std::ptr::copy_nonoverlapping((e.dev_vaddr + o) as *const u8, v.as_mut_ptr(), len) };
                 return Some(v);
             }
         }
@@ -224,7 +231,7 @@ impl HalState {
                 }
                 let o = (paddr - e.paddr) as usize;
                 // SAFETY: inside a live allocation made by alloc_pages.
-                unsafe { std::ptr::copy_nonoverlapping(data.as_ptr(), (e.vaddr + o) as *mut u8, len) };
+                unsafe { std::ptr::copy_nonoverlapping(data.as_ptr(), (e.dev_vaddr + o) as *mut u8, len) };
                 return Ok(());
             }
         }
@@ -238,7 +245,7 @@ impl HalState {
             if e.live && paddr >= e.paddr && end <= e.paddr + (e.pages * PAGE_SIZE) as u64 {
                 let o = (paddr - e.paddr) as usize;
                 // SAFETY: inside a live allocation.
-                unsafe { std::ptr::copy_nonoverlapping(data.as_ptr(), (e.vaddr + o) as *mut u8, len) };
+                unsafe { std::ptr::copy_nonoverlapping(data.as_ptr(), (e.dev_vaddr + o) as *mut u8, len) };
                 return true;
             }
         }
@@ -287,14 +294,15 @@ unsafe impl Hal for LabHal {
             if pages == 0 {
                 h.fault("dma_alloc-zero-pages", "dma_alloc called with 0 pages".into());
             }
-            let vaddr = alloc_pages(pages);
+            let (vaddr, dev_vaddr) = if h.use_tracer_pages { crate::tracer::alloc_double_mapped(pages) } else { let v = alloc_pages(pages); (v, v) };
             let paddr = h.next_dma_paddr;
             // Leave an unmapped guard gap between allocations in device address space.
             h.next_dma_paddr += ((pages.max(1) + 1) * PAGE_SIZE) as u64;
             h.seq += 1;
+            crate::tracer::HAL_SEQ.with(|s| s.set(h.seq));
             let seq = h.seq;
             let ordinal = h.dma.len();
-            h.dma.push(DmaEntry { paddr, vaddr, pages, dir, ap: access_platform, live: true, seq, ordinal });
+            h.dma.push(DmaEntry { paddr, vaddr, dev_vaddr, pages, dir, ap: access_platform, live: true, seq, ordinal });
             h.log.push(HalEvent::DmaAlloc { paddr, pages, dir, ap: access_platform, failed: false });
             (paddr, NonNull::new(vaddr as *mut u8).unwrap())
         })
@@ -316,6 +324,7 @@ unsafe impl Hal for LabHal {
                 h.fault(&k, d);
             }
             h.seq += 1;
+            crate::tracer::HAL_SEQ.with(|s| s.set(h.seq));
             h.log.push(HalEvent::DmaDealloc { paddr, vaddr: vaddr.as_ptr() as usize, pages, ap: access_platform });
             let idx = h.dma.iter().position(|e| e.live && e.paddr == paddr);
             match idx {
@@ -329,6 +338,7 @@ unsafe impl Hal for LabHal {
                 }
                 Some(i) => {
                     let (ev, ep, ea) = (h.dma[i].vaddr, h.dma[i].pages, h.dma[i].ap);
+                    let edv = h.dma[i].dev_vaddr;
                     if ev != vaddr.as_ptr() as usize || ep != pages || ea != access_platform {
                         h.fault(
                             "dma-free-mismatch",
@@ -336,7 +346,11 @@ unsafe impl Hal for LabHal {
                         );
                     }
                     h.dma[i].live = false;
-                    free_pages(ev, ep);
+                    if edv != ev {
+                        crate::tracer::free_double_mapped(ev, edv, ep);
+                    } else {
+                        free_pages(ev, ep);
+                    }
                 }
             }
             0
@@ -373,6 +387,7 @@ unsafe impl Hal for LabHal {
             let paddr = h.next_share_paddr;
             h.next_share_paddr += ((len as u64 + 15) & !15) + 0x40;
             h.seq += 1;
+            crate::tracer::HAL_SEQ.with(|s| s.set(h.seq));
             let seq = h.seq;
             h.shares.push(ShareEntry { paddr, vaddr, len, dir, ap: access_platform, live: true, seq, bounce });
             h.log.push(HalEvent::Share { paddr, vaddr, len, dir, ap: access_platform });
@@ -387,6 +402,7 @@ unsafe impl Hal for LabHal {
             let vaddr = buffer.as_ptr() as *mut u8 as usize;
             let len = buffer.len();
             h.seq += 1;
+            crate::tracer::HAL_SEQ.with(|s| s.set(h.seq));
             h.log.push(HalEvent::Unshare { paddr, vaddr, len, dir, ap: access_platform });
             let idx = h.shares.iter().position(|e| e.live && e.paddr == paddr);
             match idx {
